@@ -3,15 +3,19 @@ import math
 
 from harness import dtwgen
 
-COQ_FILES = ["theories/Matrix.v", "theories/MatrixProofs.v", "props/C06.v"]
+COQ_FILES = ["theories/Matrix.v", "theories/MatrixProofs.v", "theories/CMatrix.v", "props/C06.v"]
 THEOREMS = [("DVProps.C06", "C06_length_is_number_of_pairs"), ("DVProps.C06", "C06_compact_is_map_over_pairs"),
-            ("DVProps.C06", "C06_condensed_index")]
+            ("DVProps.C06", "C06_condensed_index"), ("DVProps.C06", "C06_c_routines_enumerate_the_pairs"),
+            ("DVProps.C06", "C06_c_length_is_number_of_pairs"), ("DVProps.C06", "C06_c_loops_call_row_then_column")]
 TRUSTED_BASE = [
     "Coq 8.16.1 kernel (no native_compute)",
     "tools/translate_py.py: _distance_matrix_length, _complete_block, distance_matrix_python, distance_array_index are "
     "regenerated WHOLE from dtw.py into Gen_matrix.v; the theorems are about those generated terms",
-    "the C loops (dtw_distances_*), dtw_distances_length, the pyx block decoding and distances_array_to_matrix are "
-    "tied by correspondence (harness/props/C06.py)",
+    "tools/translate_c.py: loop bounds, column-start rule, 0->n corrections of the four serial C routines and the "
+    "per-row contribution of dtw_distances_length regenerated into Gen_cmatrix.v; CMatrix.v proves they enumerate "
+    "`pairs` in order / count them (consecutive output positions checked by the translator)",
+    "the pyx block decoding, distances_array_to_matrix and the full-matrix (no block) branch of dtw_distances_length "
+    "are tied by correspondence (harness/props/C06.py)",
     "extraction + driver.ml",
 ]
 ASSUMPTIONS = ["np.triu_indices / fancy indexing in distances_array_to_matrix trusted; values come from the engine's own "
